@@ -2,6 +2,7 @@ package main
 
 import (
 	"fmt"
+	"go/constant"
 	"go/token"
 	"go/types"
 	"sort"
@@ -597,7 +598,12 @@ func checkFlagDiscipline(w *World, c *Check, rule string, only func(f *ssa.Funct
 				}
 				if d.flagCandidate(v) {
 					if _, isConst := v.(*ssa.Const); !isConst {
-						uses = append(uses, use{x, v})
+						// the branch of `flag || more` itself is no read of the flag's verdict: its true side feeds the
+						// constant true into the or-value, its false side evaluates `more`; what the or-value is worth is
+						// judged where THAT is read
+						if !isOrBranch(x, v) {
+							uses = append(uses, use{x, v})
+						}
 					}
 				}
 			}
@@ -620,7 +626,13 @@ func checkFlagDiscipline(w *World, c *Check, rule string, only func(f *ssa.Funct
 				ev.pseudo = true
 				ev.what += " (carries data only under the test before " + w.InstrPos(g) + ")"
 			}
+			// hasData = hasData || c.TotalItems > 0 next to an unconditional write of totalItems: the flag value that
+			// or-s in the set-test of the very field the entry carries is true whenever the entry carries data
+			orPhi := orTestFor(ev)
 			for _, u := range uses {
+				if orPhi != nil && flagFlowsFrom(u.v, orPhi, 0, map[ssa.Value]bool{}) {
+					continue
+				}
 				if !instrReaches(ev.in, u.at) {
 					continue
 				}
@@ -865,4 +877,109 @@ func onlyRaises(g *ssa.Function, idx int) bool {
 		}
 	}
 	return true
+}
+
+// orTestFor: the entry written by ev is written unconditionally, and the function holds a boolean `flag || test` (a
+// short-circuit phi with a constant-true way in) whose test reads exactly the field the entry carries; returns that phi.
+func orTestFor(ev flagEvent) *ssa.Phi {
+	mu, ok := ev.in.(*ssa.MapUpdate)
+	if !ok {
+		return nil
+	}
+	want := map[[2]interface{}]bool{}
+	fieldsBehind(mu.Value, 0, want)
+	if len(want) != 1 {
+		return nil
+	}
+	for _, b := range mu.Parent().Blocks {
+		for _, in := range b.Instrs {
+			phi, isPhi := in.(*ssa.Phi)
+			if !isPhi {
+				break
+			}
+			if bt, isB := types.Unalias(phi.Type()).Underlying().(*types.Basic); !isB || bt.Kind() != types.Bool {
+				continue
+			}
+			hasTrue, hasTest := false, false
+			for _, e := range phi.Edges {
+				if k, isC := e.(*ssa.Const); isC && k.Value != nil && k.Value.Kind() == constant.Bool && constant.BoolVal(k.Value) {
+					hasTrue = true
+					continue
+				}
+				if _, isCmp := e.(*ssa.BinOp); isCmp {
+					got := map[[2]interface{}]bool{}
+					fieldsBehind(e, 0, got)
+					same := len(got) == 1
+					for k := range got {
+						same = same && want[k]
+					}
+					if same {
+						hasTest = true
+					}
+				}
+			}
+			if hasTrue && hasTest {
+				return phi
+			}
+		}
+	}
+	return nil
+}
+
+// flagFlowsFrom: the flag value v is p, or takes p's value on some way in (phis, a local or named result it was stored to).
+func flagFlowsFrom(v ssa.Value, p *ssa.Phi, d int, seen map[ssa.Value]bool) bool {
+	if v == nil || d > 10 || seen[v] {
+		return false
+	}
+	seen[v] = true
+	if v == ssa.Value(p) {
+		return true
+	}
+	switch x := v.(type) {
+	case *ssa.Phi:
+		for _, e := range x.Edges {
+			if flagFlowsFrom(e, p, d+1, seen) {
+				return true
+			}
+		}
+	case *ssa.UnOp:
+		if al, ok := x.X.(*ssa.Alloc); ok && x.Op == token.MUL {
+			for _, st := range storesTo(al) {
+				if flagFlowsFrom(st.Val, p, d+1, seen) {
+					return true
+				}
+			}
+		}
+	}
+	return false
+}
+
+// isOrBranch: the If is the short-circuit test of `v || rest`: taken, it jumps straight to a join whose phi receives the
+// constant true from this block; not taken, it goes to a block that only computes the right operand and joins too.
+func isOrBranch(iff *ssa.If, v ssa.Value) bool {
+	if iff.Cond != v {
+		return false
+	}
+	b := iff.Block()
+	if len(b.Succs) != 2 {
+		return false
+	}
+	join, rhs := b.Succs[0], b.Succs[1]
+	if len(rhs.Succs) != 1 || rhs.Succs[0] != join {
+		return false
+	}
+	for _, in := range join.Instrs {
+		phi, ok := in.(*ssa.Phi)
+		if !ok {
+			break
+		}
+		for pi, p := range join.Preds {
+			if p == b && pi < len(phi.Edges) {
+				if k, isC := phi.Edges[pi].(*ssa.Const); isC && k.Value != nil && k.Value.Kind() == constant.Bool && constant.BoolVal(k.Value) {
+					return true
+				}
+			}
+		}
+	}
+	return false
 }
